@@ -188,6 +188,8 @@ def shape(t, env: Env):
         return _bcast(shape(t[1], env), s, t)
     if k == "vcat":
         items = t[1]
+        if len(items) == 0:
+            return ("tuple", 0)
         if len(items) == 1:
             return shape(items[0], env)
         link, a, b = None, 0, 0
